@@ -367,23 +367,27 @@ func runC13(c *Ctx) {
 	c.Group("R-C13-ITER", "shardedMap.IterValues", func() {
 		outer := P.Fn("ristretto", "shardedMap", "IterValues")
 		L.Analysed(fname(outer))
-		if len(outer.AnonFuncs) != 1 {
-			L.Undecided("R-C13-ITER", "shardedMap.IterValues", "expected the per-shard closure", outer.Pos())
-			return
-		}
-		inner := outer.AnonFuncs[0]
-		tbi := newTB(inner)
+		// the function that ranges over shard.data: the per-shard closure, or IterValues itself if inlined
+		var inner *ssa.Function
 		var next *ssa.Next
-		eachInstr(inner, func(in ssa.Instruction) {
-			if n, ok := in.(*ssa.Next); ok && Match("next(range(fld[data](_)))", tbi.T(n), nil) {
-				next = n
-			}
-		})
-		if next == nil {
-			L.Fail("R-C13-ITER", "shardedMap.IterValues#entries", "the closure does not range over shard.data", inner.Pos())
+		for _, f := range append([]*ssa.Function{outer}, outer.AnonFuncs...) {
+			t := newTB(f)
+			eachInstr(f, func(in ssa.Instruction) {
+				if n, ok := in.(*ssa.Next); ok && Match("next(range(fld[data](_)))", t.T(n), nil) {
+					inner, next = f, n
+				}
+			})
+		}
+		if inner == nil {
+			L.Fail("R-C13-ITER", "shardedMap.IterValues#entries", "IterValues does not range over shard.data", outer.Pos())
 			return
 		}
+		tbi := newTB(inner)
 		entry := "ext[2](" + tbi.T(next).String() + ")"
+		isCb := func(in ssa.Instruction) bool {
+			cl, ok := in.(*ssa.Call)
+			return ok && calleeName(&cl.Call) == "dyn" && strings.Contains(tbi.T(cl).String(), "fld[value]("+entry+")")
+		}
 		paths, _ := explore(inner, tbi, ExploreOpts{Start: after(next), StopAt: isInstr(next)})
 		good, n := true, 0
 		stopOK := true
@@ -394,8 +398,8 @@ func runC13(c *Ctx) {
 			n++
 			var cbs []*ssa.Call
 			for _, s := range p.Steps {
-				if cl, ok := s.In.(*ssa.Call); ok && calleeName(&cl.Call) == "dyn" && strings.Contains(tbi.T(cl).String(), "fld[value]("+entry+")") {
-					cbs = append(cbs, cl)
+				if isCb(s.In) {
+					cbs = append(cbs, s.In.(*ssa.Call))
 				}
 			}
 			if len(cbs) > 1 {
@@ -403,15 +407,16 @@ func runC13(c *Ctx) {
 				L.Fail("R-C13-ITER", "shardedMap.IterValues#entries", "an entry is passed to the callback more than once per iteration", next.Pos())
 			}
 			if len(cbs) == 1 {
-				stopped := p.CondHeld(tbi, tbi.T(cbs[0]).String(), nil)
-				ret, isRet := p.End.(*ssa.Return)
-				if stopped == 1 && !(isRet && tbi.T(returnValues(ret)[0]).String() == "c[true]") {
-					stopOK = false
-				}
-				if stopped == -1 && p.End != ssa.Instruction(next) {
-					stopOK = false
-				}
-				if stopped == 0 {
+				switch p.CondHeld(tbi, tbi.T(cbs[0]).String(), nil) {
+				case 1: // asked to stop: this shard's loop must end here
+					if p.End == ssa.Instruction(next) {
+						stopOK = false
+					}
+				case -1:
+					if p.End != ssa.Instruction(next) {
+						stopOK = false
+					}
+				default:
 					stopOK = false
 				}
 			}
@@ -419,36 +424,68 @@ func runC13(c *Ctx) {
 		if n > 0 && good {
 			L.Ok("R-C13-ITER", "shardedMap.IterValues#entries", "each ranged entry is yielded at most once", next.Pos())
 		}
-		L.Check(stopOK && n > 0, "R-C13-ITER", "shardedMap.IterValues#stop-inner", "the callback's result is tested; true ends the shard's loop with `return true`", "the callback's stop result is ignored or does not end the shard's loop", next.Pos())
-		// outer: ranges over sm.shards; on stopped leaves the loop
+		L.Check(stopOK && n > 0, "R-C13-ITER", "shardedMap.IterValues#stop-inner", "the callback's result is tested; true ends the shard's loop", "the callback's stop result is ignored or does not end the shard's loop", next.Pos())
 		tbo := newTB(outer)
-		var call *ssa.Call
-		eachInstr(outer, func(in ssa.Instruction) {
-			if cl, ok := in.(*ssa.Call); ok {
-				if mc, ok := cl.Call.Value.(*ssa.MakeClosure); ok && mc.Fn == inner {
-					call = cl
-				}
-			}
-		})
-		if call == nil {
-			L.Fail("R-C13-ITER", "shardedMap.IterValues#shards", "the per-shard closure is not invoked", outer.Pos())
-			return
-		}
-		stopped := edgesWhere(outer, tbo, tbo.T(call).String(), nil, true)
-		okOuter := len(stopped) > 0
-		for e := range stopped {
-			tgt := e.From.Succs[e.Succ]
-			if again, _ := reach(Pos{tgt, 0}, isInstr(call), nil, nil); again != nil {
-				okOuter = false
-			}
-		}
-		// ranges over all shards: loop header compares the range index with len(sm.shards)
 		allShards := false
 		for _, b := range outer.Blocks {
 			if iff := lastIf(b); iff != nil && condPolarity(tbo.T(iff.Cond), "lt(_,call[len](fld[shards](p[0])))", nil) != 0 {
 				allShards = true
 			}
 		}
-		L.Check(okOuter && allShards, "R-C13-ITER", "shardedMap.IterValues#shards", "ranges over all shards; a stop request leaves the shard loop", "the shard loop does not cover all shards or continues after the callback asked to stop", call.Pos())
+		okOuter := false
+		if inner != outer {
+			var call *ssa.Call
+			eachInstr(outer, func(in ssa.Instruction) {
+				if cl, ok := in.(*ssa.Call); ok {
+					if mc, ok := cl.Call.Value.(*ssa.MakeClosure); ok && mc.Fn == inner {
+						call = cl
+					}
+				}
+			})
+			if call != nil {
+				stopped := edgesWhere(outer, tbo, tbo.T(call).String(), nil, true)
+				okOuter = len(stopped) > 0
+				for e := range stopped {
+					tgt := e.From.Succs[e.Succ]
+					if again, _ := reach(Pos{tgt, 0}, isInstr(call), nil, nil); again != nil {
+						okOuter = false
+					}
+				}
+				// the closure reports the stop request: returns true exactly on the callback's true edge
+				for _, r := range returnsOf(inner) {
+					if tbi.T(returnValues(r)[0]).String() == "c[true]" {
+						viaStop := false
+						for _, b := range inner.Blocks {
+							if iff := lastIf(b); iff != nil {
+								if cl, ok := iff.Cond.(*ssa.Call); ok && isCb(cl) {
+									if x, _ := reach(Pos{b.Succs[1], 0}, isInstr(r), isInstr(next), nil); x == nil {
+										viaStop = true
+									}
+								}
+							}
+						}
+						if !viaStop {
+							okOuter = false
+						}
+					}
+				}
+			}
+		} else {
+			// inlined: after a true result no further callback may run
+			okOuter = true
+			found := false
+			for _, b := range outer.Blocks {
+				if iff := lastIf(b); iff != nil {
+					if cl, ok := iff.Cond.(*ssa.Call); ok && isCb(cl) {
+						found = true
+						if again, _ := reach(Pos{b.Succs[0], 0}, isCb, nil, nil); again != nil {
+							okOuter = false
+						}
+					}
+				}
+			}
+			okOuter = okOuter && found
+		}
+		L.Check(okOuter && allShards, "R-C13-ITER", "shardedMap.IterValues#shards", "ranges over all shards; a stop request ends the whole enumeration", "the shard loop does not cover all shards or continues after the callback asked to stop", outer.Pos())
 	})
 }
